@@ -42,6 +42,21 @@ def draw_nrows(r, small=False):
 
 
 def draw_table(r, form, delim=None, simple=False, strsafe=False, nrows=None, fields=None, small=False):
+    if fields is None and nrows is None and chance(r, 0.04):
+        # size coincidences: rows of 2**m bytes and 2**k of them, so that the data region is an exact multiple
+        # of the block and buffer sizes a reader or writer may work in (4 KiB .. 64 KiB, rarely 16 MiB)
+        fields = T.draw_fields_pow2(r, form)
+        if form == "bin":
+            rowsize = sum({"1": 1, "2": 2, "4": 4, "8": 8}.get(f["t"][1:], int(f["t"][1:]) if f["t"][0] == "S" else 8) for f in fields)
+            lg = (rowsize - 1).bit_length()
+            k = wpick(r, [(r.randrange(6, 13), 6), (13, 2), (16 - lg, 3), (17 - lg, 1), (24 - lg, 0.12)])
+        else:
+            rowchars = sum(int(f["t"][1:]) for f in fields) + len(fields)
+            lg = (rowchars - 1).bit_length()
+            k = wpick(r, [(16 - lg, 5), (17 - lg, 2), (12 - lg, 2), (r.randrange(6, 12), 2)])
+        n = 2 ** max(0, k)
+        n += wpick(r, [(0, 6), (1, 1), (-1, 1)]) if n > 2 else 0
+        return {"fields": fields, "nrows": n, "dseed": r.randrange(1 << 30)}
     if fields is None:
         fields = T.draw_fields(r, form, simple=simple)
         if strsafe:
@@ -285,7 +300,7 @@ def caller_history(r, pfx, avoid):
         p = "%sa%d.rec" % (pfx, j)
         txt = chance(r, 0.5)
         state[p] = {"delim": pick(r, DELIMS_C03) if txt else None, "form": wpick(r, [("sfile", 4), ("raw", 1)]),
-                    "fields": None, "exists": False, "h": None, "rows": 0}
+                    "fields": None, "exists": False, "h": None, "rows": 0, "pow2": chance(r, 0.03)}
     nops = r.randrange(3, 13)
     for _ in range(nops):
         p = pick(r, sorted(state))
@@ -293,8 +308,17 @@ def caller_history(r, pfx, avoid):
         form = "txt" if s["delim"] else "bin"
 
         def chunk(fields=None):
+            if fields is None and s["fields"] is None and s.get("pow2"):
+                fields = T.draw_fields_pow2(r, form)
             f = fields if fields is not None else (s["fields"] or T.draw_fields(r, form, simple=True, nmax=5))
-            return {"fields": f, "nrows": draw_nrows(r, small=not chance(r, 0.08)), "dseed": r.randrange(1 << 30)}
+            n = draw_nrows(r, small=not chance(r, 0.08))
+            if s.get("pow2") and all(x["n"][:1] in "ps" and x["n"][1:].isdigit() for x in f):
+                # chunk sizes that are an exact multiple of block sizes a writer may work in (.. 64 KiB, rarely 16 MiB)
+                width = sum(T.recipe_dtype([x]).itemsize for x in f) + (len(f) if form == "txt" else 0)
+                lg = (width - 1).bit_length()
+                k = wpick(r, [(r.randrange(4, 12), 5), (16 - lg, 3), (17 - lg, 1), (24 - lg if form == "bin" else 16 - lg, 0.5)])
+                n = 2 ** max(0, k)
+            return {"fields": f, "nrows": n, "dseed": r.randrange(1 << 30)}
 
         if s["h"] is not None:
             x = r.random()
@@ -309,7 +333,11 @@ def caller_history(r, pfx, avoid):
                 s["exists"] = True
             elif x < 0.58 and s["fields"] is not None and s["form"] == "sfile":
                 f2, how = incompatible(r, s["fields"], form)
-                ops.append({"k": "write", "h": s["h"], "tab": chunk(f2), "bad": how})
+                bad = {"k": "write", "h": s["h"], "tab": chunk(f2), "bad": how}
+                ops.append(bad)
+                if chance(r, 0.35):
+                    # the caller tries the very same (rejected) table once more
+                    ops.append(dict(bad))
             elif x < 0.70 and s["hmode"] == "r+" and s["fields"] is not None:
                 ops.append({"k": "hread", "h": s["h"], "sel": {"style": pick(r, ["read_kw", "getitem_rows"])}})
             else:
@@ -341,7 +369,7 @@ def caller_history(r, pfx, avoid):
                 if chance(r, 0.15):
                     ops.append({"k": "stale", "p": p, "what": pick(r, ["garbage", "fakehdr", "lines"]),
                                 "n": pick(r, [10, 3000, 100000]), "seed": r.randrange(1 << 20)})
-                t = chunk(T.draw_fields(r, form, simple=True, nmax=5))
+                t = chunk(T.draw_fields_pow2(r, form) if s.get("pow2") else T.draw_fields(r, form, simple=True, nmax=5))
                 ops.append({"k": "create", "p": p, "form": s["form"], "delim": s["delim"],
                             "entry": pick(r, SF_CREATE if s["form"] == "sfile" else RAW_CREATE), "tab": t,
                             "hdr": T.gen_header(r, True) if s["form"] == "sfile" else None})
@@ -371,7 +399,7 @@ def caller_history(r, pfx, avoid):
             if chance(r, 0.3):
                 s["delim"] = pick(r, DELIMS_C03) if chance(r, 0.5) else None
                 form = "txt" if s["delim"] else "bin"
-            t = chunk(T.draw_fields(r, form, simple=True, nmax=5))
+            t = chunk(T.draw_fields_pow2(r, form) if s.get("pow2") else T.draw_fields(r, form, simple=True, nmax=5))
             t["nrows"] = wpick(r, [(1, 2), (t["nrows"], 2)])
             ops.append({"k": "create", "p": p, "form": s["form"], "delim": s["delim"],
                         "entry": pick(r, SF_CREATE if s["form"] == "sfile" else RAW_CREATE), "tab": t,
